@@ -27,10 +27,12 @@ VARIABLES
   rej,      \* fids for which an add_* call was rejected
   hcm,      \* model of the compatibility flag: [flag, stack]
   seen,     \* successful writes so far: [key, ei, opts]
+  projs,    \* per process: projections (copy number, origin, dataset name) of the accepted add_* calls, in order
+  failedw,  \* fids for which a write raised
   verdict,  \* set of << clause, event index >>
   cnt       \* counters (coverage evidence)
 
-vars == << tid, ei, ph, rd, nrec, bnd, dec, cfil, clf, cobj, cnf, rej, hcm, seen, verdict, cnt >>
+vars == << tid, ei, ph, rd, nrec, bnd, dec, cfil, clf, cobj, cnf, rej, hcm, seen, projs, failedw, verdict, cnt >>
 canonVars == << cfil, clf, cobj, cnf, rej >>
 
 T == Traces[tid]
@@ -48,7 +50,7 @@ Init ==
   /\ ei = 1 /\ ph = "ev" /\ rd = ReaderInit /\ nrec = 0 /\ bnd = {} /\ dec = << >>
   /\ cfil = << >> /\ clf = << >> /\ cobj = << >> /\ cnf = << >> /\ rej = {}
   /\ hcm = [flag |-> FALSE, stack |-> << >>]
-  /\ seen = << >> /\ verdict = {} /\ cnt = CntZero
+  /\ seen = << >> /\ projs = << << >>, << >>, << >>, << >> >> /\ failedw = {} /\ verdict = {} /\ cnt = CntZero
 
 IsWriteOp == E.op \in {"lowwrite", "write"}
 HighLevel == E.op = "write"
@@ -64,7 +66,7 @@ NewFile ==
   /\ verdict' = verdict \cup Tag(FlagClause(hcm.flag), ei)
   /\ cnt' = [cnt EXCEPT !.events = @ + 1]
   /\ ei' = ei + 1
-  /\ UNCHANGED << tid, ph, rd, nrec, bnd, dec, clf, cobj, cnf, rej, hcm, seen >>
+  /\ UNCHANGED << tid, ph, rd, nrec, bnd, dec, clf, cobj, cnf, rej, hcm, seen, projs, failedw >>
 
 NoteHc(f, fid) == [i \in DOMAIN f |-> IF f[i].fid = fid THEN [f[i] EXCEPT !.allhc = @ /\ hcm.flag] ELSE f[i]]
 
@@ -75,7 +77,7 @@ AddLf ==
   /\ verdict' = verdict \cup Tag(FlagClause(hcm.flag), ei)
   /\ cnt' = [cnt EXCEPT !.events = @ + 1]
   /\ ei' = ei + 1
-  /\ UNCHANGED << tid, ph, rd, nrec, bnd, dec, cobj, cnf, rej, hcm, seen >>
+  /\ UNCHANGED << tid, ph, rd, nrec, bnd, dec, cobj, cnf, rej, hcm, seen, projs, failedw >>
 
 AddObject ==
   /\ ph = "ev" /\ ei <= NEvents /\ E.op = "add"
@@ -88,15 +90,17 @@ AddObject ==
   /\ verdict' = verdict \cup Tag(FlagClause(hcm.flag), ei)
   /\ cnt' = [cnt EXCEPT !.events = @ + 1, !.rejected = @ + (IF E.outcome = "ok" THEN 0 ELSE 1)]
   /\ ei' = ei + 1
-  /\ UNCHANGED << tid, ph, rd, nrec, bnd, dec, clf, cnf, hcm, seen >>
+  /\ projs' = IF E.outcome = "ok" /\ E.proc \in DOMAIN projs
+              THEN [projs EXCEPT ![E.proc] = Append(@, [cls |-> E.cls, name |-> E.name, proj |-> E.proj])] ELSE projs
+  /\ UNCHANGED << tid, ph, rd, nrec, bnd, dec, clf, cnf, hcm, seen, failedw >>
 
 SetAttrIn(c, e) ==
   IF e.part = "origin_reference" THEN [c EXCEPT !.origin = e.origin]
   ELSE LET S == { i \in DOMAIN c.attrs : c.attrs[i].label = e.label } IN
     IF S = {}
     THEN [c EXCEPT !.attrs = Append(@, IF e.part = "value"
-             THEN [label |-> e.label, has_val |-> TRUE, val |-> e.val, has_units |-> FALSE, units |-> << >>, judge |-> e.judge]
-             ELSE [label |-> e.label, has_val |-> FALSE, val |-> << >>, has_units |-> TRUE, units |-> e.units, judge |-> TRUE])]
+             THEN [label |-> e.label, has_val |-> TRUE, val |-> e.val, has_units |-> FALSE, units |-> << >>, judge |-> e.judge, enum_ok |-> TRUE]
+             ELSE [label |-> e.label, has_val |-> FALSE, val |-> << >>, has_units |-> TRUE, units |-> e.units, judge |-> TRUE, enum_ok |-> TRUE])]
     ELSE LET i == CHOOSE x \in S : TRUE IN
       IF e.part = "value" THEN [c EXCEPT !.attrs[i].has_val = TRUE, !.attrs[i].val = e.val, !.attrs[i].judge = e.judge]
       ELSE [c EXCEPT !.attrs[i].has_units = TRUE, !.attrs[i].units = e.units]
@@ -107,7 +111,7 @@ SetAttr ==
   /\ verdict' = verdict \cup Tag(FlagClause(hcm.flag), ei)
   /\ cnt' = [cnt EXCEPT !.events = @ + 1]
   /\ ei' = ei + 1
-  /\ UNCHANGED << tid, ph, rd, nrec, bnd, dec, cfil, clf, cnf, rej, hcm, seen >>
+  /\ UNCHANGED << tid, ph, rd, nrec, bnd, dec, cfil, clf, cnf, rej, hcm, seen, projs, failedw >>
 
 NofmtData ==
   /\ ph = "ev" /\ ei <= NEvents /\ E.op = "nofmt_data"
@@ -115,7 +119,7 @@ NofmtData ==
   /\ verdict' = verdict \cup Tag(FlagClause(hcm.flag), ei)
   /\ cnt' = [cnt EXCEPT !.events = @ + 1]
   /\ ei' = ei + 1
-  /\ UNCHANGED << tid, ph, rd, nrec, bnd, dec, cfil, clf, cobj, rej, hcm, seen >>
+  /\ UNCHANGED << tid, ph, rd, nrec, bnd, dec, cfil, clf, cobj, rej, hcm, seen, projs, failedw >>
 
 (* C17: the context manager: enter saves and sets, leaving restores (also by exception) *)
 HcEvent ==
@@ -127,7 +131,7 @@ HcEvent ==
         /\ verdict' = verdict \cup Tag(IF E.hc = m.flag THEN {} ELSE {"C17.FlagDiscipline"}, ei)
   /\ cnt' = [cnt EXCEPT !.events = @ + 1, !.hcev = @ + 1]
   /\ ei' = ei + 1
-  /\ UNCHANGED << tid, ph, rd, nrec, bnd, dec, cfil, clf, cobj, cnf, rej, seen >>
+  /\ UNCHANGED << tid, ph, rd, nrec, bnd, dec, cfil, clf, cobj, cnf, rej, seen, projs, failedw >>
 
 (* ----------------------- C06: primitive encodings ------------------------ *)
 EncodeClauses(e) ==
@@ -165,9 +169,19 @@ Encode ==
   /\ verdict' = verdict \cup Tag(EncodeClauses(E), ei)
   /\ cnt' = [cnt EXCEPT !.events = @ + 1, !.enc = @ + 1]
   /\ ei' = ei + 1
-  /\ UNCHANGED << tid, ph, rd, nrec, bnd, dec, cfil, clf, cobj, cnf, rej, hcm, seen >>
+  /\ UNCHANGED << tid, ph, rd, nrec, bnd, dec, cfil, clf, cobj, cnf, rej, hcm, seen, projs, failedw >>
 
 (* ----------------------- writes ------------------------------------------ *)
+(* C17: what the specification of a file must not contain inside the high-compatibility mode *)
+HcNameOk(n) == n # << >> /\ \A i \in DOMAIN n : n[i] \in (65..90) \cup (48..57) \cup {45, 95}
+CanonBreach(fid) ==
+  LET f == CHOOSE x \in { cfil[i] : i \in DOMAIN cfil } : x.fid = fid IN
+     ~HcNameOk(f.setid)
+  \/ (\E i \in DOMAIN clf : (clf[i].fid = fid /\ ~HcNameOk(clf[i].fh_id)))
+  \/ \E i \in DOMAIN cobj : (cobj[i].fid = fid /\ (~HcNameOk(cobj[i].name)
+                                 \/ (\E a \in DOMAIN cobj[i].attrs : ~cobj[i].attrs[a].enum_ok)))
+DataBreach(e) == \E i \in DOMAIN e.frames : \E c \in DOMAIN e.frames[i].chans : e.frames[i].chans[c].srcsigned
+
 LowValid(e) == e.vrl % 2 = 0 /\ e.vrl >= 20 /\ e.vrl <= 16384 /\ (e.out_chunk = 0 \/ e.out_chunk >= e.vrl)
                /\ \A i \in DOMAIN e.recs : e.recs[i].type \in 0..255
 
@@ -188,9 +202,11 @@ BeginWrite ==
      ELSE /\ verdict' = verdict \cup Tag(SulClauses(E.file.bytes, FileCfg(E))
                  \cup (IF HighLevel THEN FlagClause(hcm.flag) ELSE {})
                  \cup (IF HighLevel /\ E.claim.mustraise # "" THEN {"C12.MustRaise"} ELSE {})
-                 \cup (IF HighLevel /\ E.claim.hc_breach # "" /\ hcm.flag /\ FileOf(E.fid).allhc THEN {"C17.BreachWritten"} ELSE {}), ei)
+                 \cup (IF HighLevel /\ hcm.flag /\ FileOf(E.fid).allhc
+                          /\ (E.claim.hc_breach # "" \/ CanonBreach(E.fid) \/ DataBreach(E)) THEN {"C17.BreachWritten"} ELSE {}), ei)
           /\ ph' = "vr" /\ rd' = ReaderInit /\ nrec' = 0 /\ bnd' = {80} /\ dec' = << >> /\ UNCHANGED ei
-  /\ UNCHANGED << tid, cfil, clf, cobj, cnf, rej, hcm, seen >>
+  /\ failedw' = IF HighLevel /\ E.outcome = "raised" THEN failedw \cup {E.fid} ELSE failedw
+  /\ UNCHANGED << tid, cfil, clf, cobj, cnf, rej, hcm, seen, projs >>
 
 (* (a record with an empty body denotes "no record": the writer emits nothing for an empty set)  *)
 NonEmpty(recs) == SelectSeq(recs, LAMBDA x : Len(x.body) > 0)
@@ -218,7 +234,7 @@ ReadVR ==
         /\ dec' = dec \o nd
         /\ verdict' = verdict \cup Tag(st.bad \cup UNION { chk(k) : k \in 1..Len(st.out) }
                                        \cup UNION { nd[k].bad : k \in DOMAIN nd }, ei)
-  /\ UNCHANGED << tid, ei, ph, cfil, clf, cobj, cnf, rej, hcm, seen, cnt >>
+  /\ UNCHANGED << tid, ei, ph, cfil, clf, cobj, cnf, rej, hcm, seen, projs, failedw, cnt >>
 
 (* end of file: counts, totals, flush observations (C10)                    *)
 EndFile ==
@@ -242,7 +258,7 @@ EndFile ==
         /\ cnt' = [cnt EXCEPT !.vrs = @ + rd.nvr, !.segs = @ + rd.nseg, !.pads = @ + rd.npad,
                               !.multi = @ + rd.nmulti, !.recs = @ + nrec, !.flushes = @ + Len(fl)]
   /\ IF HighLevel THEN ph' = "L1" /\ UNCHANGED ei ELSE ph' = "ev" /\ ei' = ei + 1
-  /\ UNCHANGED << tid, rd, nrec, bnd, dec, cfil, clf, cobj, cnf, rej, hcm, seen >>
+  /\ UNCHANGED << tid, rd, nrec, bnd, dec, cfil, clf, cobj, cnf, rej, hcm, seen, projs, failedw >>
 
 (* ---- logical clauses of a high-level write, one step per family --------- *)
 MyLfs  == LfsOf(clf, E.fid)
@@ -256,7 +272,7 @@ CheckStructure ==        \* C07 identity / references, C09 order (file alone)
                         !.fdata = @ + Len(SelectSeq(dec, LAMBDA r : r.k = "I" /\ r.type = 0)),
                         !.nofmt = @ + Len(SelectSeq(dec, LAMBDA r : r.k = "I" /\ r.type = 1))]
   /\ ph' = "L2"
-  /\ UNCHANGED << tid, ei, rd, nrec, bnd, dec, cfil, clf, cobj, cnf, rej, hcm, seen >>
+  /\ UNCHANGED << tid, ei, rd, nrec, bnd, dec, cfil, clf, cobj, cnf, rej, hcm, seen, projs, failedw >>
 
 CheckObjects ==          \* C05 metadata, C09 headers, C18 / C20 inventories
   /\ ph = "L2"
@@ -267,7 +283,7 @@ CheckObjects ==          \* C05 metadata, C09 headers, C18 / C20 inventories
      \cup InventoryClauses(dec, rgs, lfs, cobj, anyRej), ei)
   /\ cnt' = [cnt EXCEPT !.objs = @ + Len(MyObjs)]
   /\ ph' = "L3"
-  /\ UNCHANGED << tid, ei, rd, nrec, bnd, dec, cfil, clf, cobj, cnf, rej, hcm, seen >>
+  /\ UNCHANGED << tid, ei, rd, nrec, bnd, dec, cfil, clf, cobj, cnf, rej, hcm, seen, projs, failedw >>
 
 CheckData ==             \* C03 / C08 / C11 / C13 frames, C16 no-format
   /\ ph = "L3"
@@ -279,7 +295,7 @@ CheckData ==             \* C03 / C08 / C11 / C13 frames, C16 no-format
   /\ cnt' = [cnt EXCEPT !.frames = @ + Len(E.frames),
                         !.idx = @ + Len(SelectSeq(E.frames, LAMBDA f : f.has_rows /\ f.index.ok))]
   /\ ph' = "L4"
-  /\ UNCHANGED << tid, ei, rd, nrec, bnd, dec, cfil, clf, cobj, cnf, rej, hcm, seen >>
+  /\ UNCHANGED << tid, ei, rd, nrec, bnd, dec, cfil, clf, cobj, cnf, rej, hcm, seen, projs, failedw >>
 
 (* the current specification of file fid, free of the numbering the harness happens to use *)
 ObjPos(objs, oid) == LET S == { i \in DOMAIN objs : objs[i].oid = oid } IN IF S = {} THEN 0 ELSE CHOOSE i \in S : TRUE
@@ -308,13 +324,14 @@ CheckHistory ==          \* C10 / C11 / C14 same specification => same bytes; C1
                       IF o.file.bytes = E.file.bytes THEN {}
                       ELSE IF o.opts.route # E.opts.route THEN {"C11.SourceEquivalent"}
                       ELSE IF o.opts.in_chunk # E.opts.in_chunk \/ o.opts.out_chunk # E.opts.out_chunk THEN {"C10.ChunkInvariant"}
+                      ELSE IF E.fid \in failedw \/ o.fid \in failedw THEN {"C20.FailedWriteRecoverable"}
                       ELSE {"C14.HistoryIndependent"}
          caller == IF E.caller.before = E.caller.after /\ E.caller.keys_same THEN {} ELSE {"C19.CallerDataUnchanged"}
      IN /\ verdict' = verdict \cup Tag(UNION { diff(i) : i \in same } \cup caller, ei)
         /\ seen' = Append(seen, [key |-> key, ei |-> ei])
         /\ cnt' = [cnt EXCEPT !.cmp = @ + Cardinality(same)]
   /\ ph' = "ev" /\ ei' = ei + 1 /\ dec' = << >>
-  /\ UNCHANGED << tid, rd, nrec, bnd, cfil, clf, cobj, cnf, rej, hcm >>
+  /\ UNCHANGED << tid, rd, nrec, bnd, cfil, clf, cobj, cnf, rej, hcm, projs, failedw >>
 
 (* a write that raised: the caller's data must still be intact (C19)        *)
 \* (handled in BeginWrite for the flag; caller data below)
@@ -324,13 +341,14 @@ KnownOps == {"lowwrite", "write", "new_file", "add_lf", "add", "set", "nofmt_dat
 SkipEvent ==
   /\ ph = "ev" /\ ei <= NEvents /\ E.op \notin KnownOps
   /\ ei' = ei + 1 /\ cnt' = [cnt EXCEPT !.events = @ + 1]
-  /\ UNCHANGED << tid, ph, rd, nrec, bnd, dec, cfil, clf, cobj, cnf, rej, hcm, seen, verdict >>
+  /\ UNCHANGED << tid, ph, rd, nrec, bnd, dec, cfil, clf, cobj, cnf, rej, hcm, seen, projs, failedw, verdict >>
 
 Finish ==
   /\ ph = "ev" /\ ei = NEvents + 1
-  /\ PrintT(<< "VERDICT", T.id, verdict, cnt >>)
+  /\ LET pc == IF T.flags.cmpproj /\ projs[1] # projs[2] THEN {<< "C20.LaterIdentityUnaffected", NEvents >>} ELSE {}
+     IN PrintT(<< "VERDICT", T.id, verdict \cup pc, cnt >>)
   /\ ph' = "done"
-  /\ UNCHANGED << tid, ei, rd, nrec, bnd, dec, cfil, clf, cobj, cnf, rej, hcm, seen, verdict, cnt >>
+  /\ UNCHANGED << tid, ei, rd, nrec, bnd, dec, cfil, clf, cobj, cnf, rej, hcm, seen, projs, failedw, verdict, cnt >>
 
 Next == NewFile \/ AddLf \/ AddObject \/ SetAttr \/ NofmtData \/ HcEvent \/ Encode
         \/ BeginWrite \/ ReadVR \/ EndFile \/ CheckStructure \/ CheckObjects \/ CheckData \/ CheckHistory
